@@ -61,22 +61,27 @@ TParseEnd == /\ Tr.kind = "parse" /\ l = Len(Tr.lines) + 1
              /\ PrintT(<<"ACCEPTED", tid>>)
 
 \* ---- api traces
+\* what an observing call returned is what the reference says
+TOk(objs, e) ==
+   CASE e.op = "parse" -> e.out = Parse(e.lines, e.strict).r
+     [] e.op = "dump"  -> e.out = DumpLines(objs[e.t].ver, objs[e.t].o, objs[e.t].es)
+     [] e.op = "iter"  -> e.out = objs[e.t].es
+     [] OTHER          -> TRUE
+
 TApply(objs, e) ==
    CASE e.op = "new"      -> ONew(objs, e.v)
      [] e.op = "parse"    -> LET r == Parse(e.lines, e.strict) IN
-                             IF r.r = "ok" /\ e.out = "ok" THEN ONew(objs, OVal(r.ver, r.o, r.es))
-                             ELSE IF r.r # "ok" /\ e.out = r.r THEN objs
-                             ELSE <<"mismatch">>
+                             IF r.r = "ok" THEN ONew(objs, OVal(r.ver, r.o, r.es)) ELSE objs
      [] e.op = "addopt"   -> OAddOpt(objs, e.t, e.x)
      [] e.op = "addent"   -> OAddEnt(objs, e.t, e.v)
      [] e.op = "entopt"   -> OEntOpt(objs, e.t, e.i, e.x)
      [] e.op = "setver"   -> OSetVer(objs, e.t, e.i)
      [] e.op = "delent"   -> ODelEnt(objs, e.t, e.i)
      [] e.op = "setfield" -> OSetField(objs, e.t, e.i, e.f, e.x)
-     [] e.op = "dump"     -> IF e.out = DumpLines(objs[e.t].ver, objs[e.t].o, objs[e.t].es) THEN objs ELSE <<"mismatch">>
-     [] e.op = "iter"     -> IF e.out = objs[e.t].es THEN objs ELSE <<"mismatch">>
+     [] e.op \in {"dump", "iter"} -> objs
 
 TEvent == /\ Tr.kind = "api" /\ l <= Len(Tr.events)
+          /\ TOk(tobjs, Tr.events[l])
           /\ tobjs' = TApply(tobjs, Tr.events[l])
           /\ Tr.events[l].snap = tobjs'
           /\ l' = l + 1 /\ tps' = tps /\ Keep
